@@ -79,7 +79,7 @@ def main():
         dst = os.path.join(V, 'seeded', sid)
         os.makedirs(dst, exist_ok=True)
         for fn in ('patch.diff', 'demo.py', 'README.md'):
-            if os.path.exists(os.path.join(src, fn)):
+            if os.path.exists(os.path.join(src, fn)) and os.path.abspath(src) != os.path.abspath(dst):
                 shutil.copy(os.path.join(src, fn), os.path.join(dst, fn))
         json.dump(meta, open(os.path.join(dst, 'meta.json'), 'w'), indent=1)
         print(json.dumps({k: meta.get(k) for k in ('seed_id', 'demo_clean_exit', 'demo_patched_exit', 'suite_passed', 'suite_failed', 'detected', 'detected_with_input')}))
